@@ -67,3 +67,53 @@ func Keys[M ~map[K]V, K comparable, V any](m M) []K {
 	}
 	return MapKeys(m).([]K)
 }
+
+// ---- finalizers ----
+//
+// runtime.SetFinalizer of instrumented code is replaced by SetFinalizer: the
+// finalizer is recorded, never handed to the real collector (whose timing the
+// explorer could not own). A harness that drops its last reference to an
+// object says so with Unreachable: from then on the finalizer may run at any
+// point, as a thread of its own, which is how the garbage collector behaves.
+
+type finalizerKey struct {
+	ep  int64
+	ptr uintptr
+}
+
+var finalizers = map[finalizerKey]reflect.Value{}
+
+// SetFinalizer mirrors runtime.SetFinalizer (finalizer nil clears it).
+func SetFinalizer(obj interface{}, finalizer interface{}) {
+	v := reflect.ValueOf(obj)
+	if v.Kind() != reflect.Ptr {
+		panic("vrt.SetFinalizer: first argument is not a pointer")
+	}
+	k := finalizerKey{Epoch(), v.Pointer()}
+	if finalizer == nil {
+		delete(finalizers, k)
+		return
+	}
+	keepAlive = append(keepAlive, obj) // the address must not be reused while the entry exists
+	finalizers[k] = reflect.ValueOf(finalizer)
+}
+
+var keepAlive []interface{}
+
+// Unreachable declares that the harness holds no reference to obj any more:
+// if a finalizer is registered it is started as a thread ("finalizer") that
+// the explorer schedules like any other. Reports whether there was one.
+func Unreachable(obj interface{}) bool {
+	v := reflect.ValueOf(obj)
+	k := finalizerKey{Epoch(), v.Pointer()}
+	fn, ok := finalizers[k]
+	if !ok {
+		return false
+	}
+	delete(finalizers, k)
+	GoNamed("finalizer", func() { fn.Call([]reflect.Value{v}) })
+	return true
+}
+
+// GC mirrors runtime.GC for instrumented code: collection is the harness's call (Unreachable).
+func GC() {}
